@@ -211,3 +211,28 @@ def strip_segment(reg, seg):
     reg = _clone(reg)
     for t in reg: t["path"] = [s for s in t["path"] if s not in seg]
     return reg
+
+# ------------------------------------------------------------------ engine values -> DSL (to read back a mutated registry)
+def _s(v):
+    v = deref(v); c = v.concrete()
+    return c if c is not None else v
+def _ffield(f):
+    f = deref(f)
+    return {"name": _s(f.f[0].f[0]) if f.f[0].idx == 1 else None, "ty": f.f[1].f[0].v, "type_name": _s(f.f[2].f[0]) if f.f[2].idx == 1 else None, "docs": [_s(x) for x in deref(f.f[3]).items]}
+def from_engine(regv):
+    out = []
+    for i, pt in enumerate(deref(regv).f[0].items):
+        pt = deref(pt); t = deref(pt.f[1]); d = t.f[2]; k = d.name; dv = deref(d.f[0])
+        if k == "Composite": df = ("composite", [_ffield(f) for f in deref(dv.f[0]).items])
+        elif k == "Variant": df = ("variant", [{"name": _s(deref(v).f[0]), "fields": [_ffield(f) for f in deref(deref(v).f[1]).items], "index": deref(v).f[2].v, "docs": [_s(x) for x in deref(deref(v).f[3]).items]} for v in deref(dv.f[0]).items])
+        elif k == "Sequence": df = ("sequence", dv.f[0].f[0].v)
+        elif k == "Array": df = ("array", dv.f[0].v, dv.f[1].f[0].v)
+        elif k == "Tuple": df = ("tuple", [x.f[0].v for x in deref(dv.f[0]).items])
+        elif k == "Primitive": df = ("primitive", dv.name)
+        elif k == "Compact": df = ("compact", dv.f[0].f[0].v)
+        else: df = ("bitseq", dv.f[0].f[0].v, dv.f[1].f[0].v)
+        e = {"path": [_s(x) for x in deref(t.f[0].f[0]).items], "params": [(_s(deref(p).f[0]), deref(p).f[1].f[0].f[0].v if deref(p).f[1].idx == 1 else None) for p in deref(t.f[1]).items],
+             "def": df, "docs": [_s(x) for x in deref(t.f[3]).items]}
+        if not (isinstance(pt.f[0].v, int) and pt.f[0].v == i): e["id"] = pt.f[0].v
+        out.append(e)
+    return out
